@@ -99,8 +99,8 @@ pub fn instantiate(t: &str, pickn: u16, reject_one: bool) -> String {
 
 // ---------------------------------------------------------------------------------------------
 // trigger pools
-pub const HOSTS: &[&str] = &["example.com", "Example.COM", "www.example.com", "example.org", "@sub.example.com", "www.@dom.@tld", "xn--bcher-kva.example", "@sub.example.org"];
-pub const REQ_HOSTS: &[&str] = &["example.com", "EXAMPLE.com", "Example.COM", "www.example.com", "example.org", "sub1.example.com", "www.foo.com", "www.my-site.net", "other.test", "a.example.org", "SUB1.example.com", "xn--bcher-kva.example"];
+pub const HOSTS: &[&str] = &["example.com", "Example.COM", "www.example.com", "example.org", "@sub.example.com", "www.@dom.@tld", "xn--bcher-kva.example", "@sub.example.org", "b\u{fc}cher.@tld", "b\u{e4}cker.@tld"];
+pub const REQ_HOSTS: &[&str] = &["example.com", "EXAMPLE.com", "Example.COM", "www.example.com", "example.org", "sub1.example.com", "www.foo.com", "www.my-site.net", "other.test", "a.example.org", "SUB1.example.com", "xn--bcher-kva.example", "b\u{fc}cher.com", "b\u{e4}cker.net", "B\u{dc}CHER.com"];
 
 pub struct CidrInfo {
     pub cidr: &'static str,
@@ -117,7 +117,7 @@ pub const CIDRS: &[CidrInfo] = &[
     CidrInfo { cidr: "0.0.0.0/0", inside: "8.8.8.8", outside: "::1" },
     CidrInfo { cidr: "garbage", inside: "10.1.2.3", outside: "10.1.2.3" },
 ];
-pub const REQ_IPS: &[&str] = &["10.9.9.9", "11.0.0.1", "10.1.2.3", "10.2.0.1", "10.1.2.4", "192.168.1.77", "192.168.2.1", "::1", "::2", "2001:db8::5", "2001:db9::1", "8.8.8.8"];
+pub const REQ_IPS: &[&str] = &["::ffff:10.1.2.3", "::ffff:192.168.1.77", "10.9.9.9", "11.0.0.1", "10.1.2.3", "10.2.0.1", "10.1.2.4", "192.168.1.77", "192.168.2.1", "::1", "::2", "2001:db8::5", "2001:db9::1", "8.8.8.8"];
 
 pub const METHODS: &[&str] = &["GET", "POST", "PUT", "DELETE"];
 
